@@ -152,21 +152,27 @@ def run_e2e(args):
                 kw = {"shards": kshards} if kshards else {}
                 return ds.as_numpy_iterator_rust(split="train", repeat=False, shuffle=0, file_parallelism=2, **kw)
             got = {"A": [], "B": [], "C": []}
+            # the same history as events of M-REG (handles 0, 1, 2; every handle registered under a key of its own)
+            hid = {"A": 0, "B": 1, "C": 2}
+            events = []
             try:
-                A = rust(1); got["A"].append(sp.ident(next(A)))
-                B = rust(None); got["B"].append(sp.ident(next(B)))
-                got["A"] += [sp.ident(e) for e in A]                 # A runs to its end and is released
+                events.append(["new", 0, 100, want["A"]]); A = rust(1); events.append(["next", 0]); got["A"].append(sp.ident(next(A)))
+                events.append(["new", 1, 101, want["B"]]); B = rust(None); events.append(["next", 1]); got["B"].append(sp.ident(next(B)))
+                for e in A:                                              # A runs to its end and is released
+                    events.append(["next", 0]); got["A"].append(sp.ident(e))
+                events.append(["next", 0]); events.append(["exit", 0])
                 del A
-                C = rust(max(1, nsh - 1))
+                events.append(["new", 2, 102, want["C"]]); C = rust(max(1, nsh - 1))
                 its = {"B": B, "C": C}
                 live = ["B", "C"]
                 while live:
                     for nm in list(live):
+                        events.append(["next", hid[nm]])
                         try:
                             got[nm].append(sp.ident(next(its[nm])))
                         except StopIteration:
                             live.remove(nm)
-                rec["runs"].append({"T": 2, "kind": "overlap3", "got": got, "want": want})
+                rec["runs"].append({"T": 2, "kind": "overlap3", "got": got, "want": want, "events": events})
             except BaseException as e:  # noqa: BLE001
                 rec["runs"].append({"T": 2, "kind": "overlap3", "got": got, "want": want, "error": f"{type(e).__name__}: {str(e)[:150]}"})
         out.append(rec)
@@ -354,6 +360,7 @@ def run(ctx):
                       "drops": [0, 1, 3], "huge": comp in ("GZIP", "ZLIB"), "pseed": rng.randrange(1 << 30), "many": (ctx.pick(10300, 70000) if i == 1 else 0)})
     recs = child.call("harness.checks.c15", "run_e2e", cases, timeout=1800)
     nruns = 0
+    reg_reqs, reg_meta = [], []
     for r in recs:
         for run_ in r["runs"]:
             nruns += 1
@@ -382,6 +389,8 @@ def run(ctx):
                     ctx.report(dict(sig, what="repeat"), f"repeating stream over the first {run_['k']} shard(s), {run_['T']} threads: Rust reader {run_['got']} vs Python reader {run_['want']}", {"case": r["case"], "run": run_})
                 continue
             if run_["kind"] == "overlap3":
+                if run_.get("events"):
+                    reg_reqs.append({"m": "reg", "handles": 3, "events": run_["events"]}); reg_meta.append((r, run_))
                 if run_["got"] != run_["want"]:
                     bad = [k for k in ("A", "B", "C") if run_["got"][k] != run_["want"][k]]
                     ctx.report(dict(sig, what="overlapping-passes"), f"three overlapping Rust passes (A ends while B is mid-pass, then C opens): pass {bad[0]} yields {run_['got'][bad[0]][:12]} instead of {run_['want'][bad[0]][:12]}",
@@ -397,6 +406,18 @@ def run(ctx):
                     ctx.report(dict(sig, what="prefix"), f"rust reader prefix {run_['got']} != {r['python'][:run_['k']]}", {"case": r["case"], "run": run_})
                 if run_["threads_alive"] > 0:
                     ctx.report(dict(sig, what="threads-alive"), f"{run_['threads_alive']} native threads still alive after the iterator was closed early (T={run_['T']}, k={run_['k']})", {"case": r["case"], "run": run_})
+    # ---- correspondence with M-REG: the staggered-lifetime history replayed on the registry model (fresh keys) hands every handle what
+    # the real iterators yielded
+    reg_bad = []
+    for (r, run_), rep in zip(reg_meta, lean.driver(reg_reqs) if reg_reqs else []):
+        model = rep.get("got")
+        if model is None or model != [run_["got"]["A"], run_["got"]["B"], run_["got"]["C"]]:
+            reg_bad.append({"case": r["case"], "model": rep, "impl": run_["got"]})
+    ctx.cov["registry_histories_replayed_on_M_REG"] = len(reg_meta) - len(reg_bad)
+    if reg_bad and not ctx.violations and not ctx.known_hits:
+        ctx.report({"kind": "correspondence-registry"}, f"M-REG (fresh keys) hands the handles {reg_bad[0]['model']}, the real iterators yielded {reg_bad[0]['impl']}",
+                   {"correspondence": "M-REG got per handle = examples yielded by three Rust iterators with staggered life times", "theorem": "Sedpack.Reg.C15_fresh_keys_isolate_iterators", "cases": reg_bad[:2]},
+                   name="corr-reg", nofail=True)
     if corr_bad and not ctx.violations and not ctx.known_hits:
         ctx.report({"kind": "correspondence"}, f"M-PMAP's output differs from parallel_map's: {corr_bad[0]}",
                    {"correspondence": "M-PMAP out under random schedules vs parallel_map (cargo harness)", "theorem": "Sedpack.PMap.C15_output_in_input_order", "cases": corr_bad[:3]}, name="corr", nofail=True)
